@@ -290,6 +290,18 @@ def rule_elimination(ctx):
     floop = [n for n in walk(top["body"]) if n["k"] == "For" and "functions" in render(n["iter"])]
     ok = len(an) == 1 and len(tloop) == 1 and any(any(x is c for x in walk(tloop[0])) for c in tu) and any(x is an[0] for x in walk(tloop[0]))
     ctx.check(R, "remove_syntactic_sugar/templates/both-stages", ok, "anonymous x%d tuples x%d" % (len(an), len(tu)), site(SSR, top))
+    # ... for every template: the first stage is reached without a test of the template and no iteration is skipped
+    # (a template from an included file is lifted on demand when a user template instantiates it)
+    if ok:
+        cs_ = [fact_str(c) for c in (conditions_to(top["body"], an[0]) or []) if c[0] not in ("loop", "closure")]
+        skips = []
+        for x in walk(tloop[0]["body"]):
+            if x["k"] in ("Continue", "Break"):
+                fx = [fact_str(c).replace(" ", "") for c in (conditions_to(tloop[0]["body"], x) or [])]
+                # leaving the iteration is the error path of a stage (its report was pushed: C02.4)
+                if not any(("Err(" in f_ and ("remove_anonymous_from_statement(" in f_ or "remove_tuples_from_statement(" in f_)) for f_ in fx):
+                    skips.append("%s under %s" % (x["k"], fx[:2]))
+        ctx.check(R, "remove_syntactic_sugar/templates/every-template", not cs_ and not skips, "the first stage runs under %s; early exits of the template loop: %s" % (cs_, skips), site(SSR, an[0]))
     if ok:
         t_in = [c for c in tu if any(x is c for x in walk(tloop[0]))][0]
         ctx.check(R, "remove_syntactic_sugar/templates/anonymous-before-tuples", an[0]["line"] < t_in["line"], "the tuple remover assumes anonymous components are gone", site(SSR, top))
@@ -500,9 +512,153 @@ def rule_contains(ctx):
         ctx.check(R, nm + "/reports-each-occurrence", len(pushes) >= 1 and len(ms_) == 2, "with a report collection every occurrence is reported through the callback (%d push, %d traversals)" % (len(pushes), len(ms_)), site(SST, f))
 
 
+def eval_children_desugared(ctx, R):
+    """remove_tuple_from_expression on every expression kind, once per child position with a *tuple* put in that
+    position, the recursive call replaced by a recording stub: the tuple must either be handed to the recursive call
+    or the node rejected with an error - it must not come out untouched (the lifting panics on a tuple)."""
+    import passeval
+    from finfun import S, Unsupported
+    from passeval import Leaves, O, V
+
+    try:
+        w = passeval.PassWorld([AST, "program_structure/src/abstract_syntax_tree/expression_impl.rs", SST, SSR], SSR)
+    except Exception:
+        return False
+    w.lenient_opaque = True
+    fn = w.free.get("remove_tuple_from_expression")
+    d = a10.enum_def(AST, "Expression")
+    if fn is None or not d:
+        return False
+    decided = 0
+    for vname, vdef in d.items():
+        if not a10.node_fields(vdef):
+            continue
+        lv0 = Leaves()
+        node0, _b = passeval.build_node("Expression", vname, vdef, lv0, True)
+        if node0[0] != "V":
+            continue
+        # child positions: (field, index or None)
+        positions = []
+        for f_ in vdef["fields"]:
+            val = node0[3].get(f_.get("name"))
+            t_ = f_["ty"].replace(" ", "")
+            if t_ in ("Expression", "Box<Expression>"):
+                positions.append((f_["name"], None))
+            elif t_ == "Vec<Expression>":
+                positions += [(f_["name"], 0), (f_["name"], 1)]
+            elif t_ in ("Vec<Access>",):
+                positions.append((f_["name"], "access"))
+        bad = []
+        n_ok = 0
+        unsupported = None
+        for fld, ix in positions:
+            lv = Leaves()
+            node, _b = passeval.build_node("Expression", vname, vdef, lv, True)
+            inner = V("Expression", "Tuple", meta=O("inner-meta"), values=("L", (lv.expr("inner0"), lv.expr("inner1"))))
+            if ix is None:
+                node[3][fld] = inner
+            elif ix == "access":
+                node[3][fld] = ("L", (S("ArrayAccess", inner), S("ComponentAccess", "out")))
+            else:
+                items = list(node[3][fld][1])
+                items[ix] = inner
+                node[3][fld] = ("L", tuple(items))
+            seen_ = []
+
+            def stub(args, seen_=seen_):
+                seen_.append(args[0])
+                return S("Ok", args[0])
+
+            w.stubs = {"remove_tuple_from_expression": stub}
+            try:
+                res = w.call_fn(fn, [node])
+            except (Unsupported, passeval.Panic) as u:
+                unsupported = str(u)
+                break
+            finally:
+                w.stubs = {}
+            is_err = isinstance(res, tuple) and len(res) > 2 and res[1] == "Err"
+            if is_err or any(x is inner for x in seen_):
+                n_ok += 1
+            else:
+                bad.append("%s%s" % (fld, "" if ix is None else "[%s]" % ix))
+        if unsupported is not None:
+            ctx.note("remove_tuple_from_expression/%s is outside the evaluator's subset (%s)" % (vname, unsupported))
+            continue
+        decided += 1
+        ctx.check(R, "remove_tuple_from_expression/%s/no-tuple-left-in-a-child" % vname, not bad, "a tuple in %s is neither desugared recursively nor rejected" % bad if bad else "a tuple in any of the %d child position(s) is desugared recursively or rejected" % len(positions), SSR)
+    return decided > 0
+
+
+def eval_declarations_kept(ctx, R):
+    """remove_anonymous_from_statement on the statement kinds that contain statements, with the recursive call replaced
+    by a stub that returns one fresh declaration per child: the declarations returned for the node must contain the
+    declaration of *every* child (a component declared for one branch of an `if` is hoisted like any other)."""
+    import passeval
+    from finfun import NONE, S, Unsupported
+    from passeval import Leaves, O, Sink, V
+
+    try:
+        w = passeval.PassWorld([AST, "program_structure/src/abstract_syntax_tree/expression_impl.rs", "program_structure/src/abstract_syntax_tree/statement_impl.rs", SST, SSR], SSR)
+    except Exception:
+        return False
+    w.lenient_opaque = True
+    fn = w.free.get("remove_anonymous_from_statement")
+    if fn is None:
+        return False
+    d = a10.enum_def(AST, "Statement")
+    decided = 0
+    for vname in ("IfThenElse", "While", "Block", "InitializationBlock"):
+        vdef = d.get(vname)
+        if vdef is None:
+            continue
+        for with_opt in ((True, False) if vname == "IfThenElse" else (True,)):
+            lv = Leaves()
+            node, _below = passeval.build_node("Statement", vname, vdef, lv, with_opt)
+            made = []
+
+            def stub(args, made=made):
+                st = [a for a in args if isinstance(a, tuple) and a and a[0] == "V" and a[1] == "Statement"]
+                dcl = O("declaration-for-child#%d" % len(made))
+                made.append(dcl)
+                out = Sink()
+                out.items = [dcl]
+                return S("Ok", ("T", (st[0] if st else O("stmt"), out)))
+
+            w.stubs = {"remove_anonymous_from_statement": stub}
+            argv = []
+            for i in fn["sig"]["inputs"]:
+                t_ = i["ty"].replace(" ", "")
+                if t_ == "Statement":
+                    argv.append(node)
+                elif t_.startswith("&Option<"):
+                    argv.append(NONE)
+                else:
+                    argv.append(O(i["pat"].get("name", "arg")))
+            try:
+                res = w.call_fn(fn, argv)
+            except (Unsupported, passeval.Panic) as u:
+                ctx.note("remove_anonymous_from_statement/%s is outside the evaluator's subset (%s)" % (vname, u))
+                continue
+            finally:
+                w.stubs = {}
+            decided += 1
+            key = "remove_anonymous_from_statement/%s%s/declarations-of-every-child-returned" % (vname, "" if with_opt else "(no else)")
+            ok = isinstance(res, tuple) and len(res) > 2 and res[1] == "Ok" and isinstance(res[2][0], tuple) and res[2][0][0] == "T" and len(res[2][0][1]) == 2
+            got = []
+            if ok:
+                dd = res[2][0][1][1]
+                got = dd.items if isinstance(dd, Sink) else (list(dd[1]) if isinstance(dd, tuple) and dd and dd[0] == "L" else [])
+            missing = [m[1] for m in made if not any(g is m for g in got)]
+            ctx.check(R, key, ok and bool(made) and not missing, "children desugared: %d, their declarations missing from the result: %s" % (len(made), missing), SSR)
+    return decided > 0
+
+
 def rule_binding(ctx):
     R = "C18.4"
     ctx.rule(R, "anonymous-component inputs and outputs are bound in declaration order (never the sorted name maps); a named input takes the operator written next to its own name; the arity is checked; `_` targets consume their value; the grammar keeps every input name")
+    eval_declarations_kept(ctx, R)
+    eval_children_desugared(ctx, R)
     fn = find_fn(SSR, "remove_anonymous_from_expression")
     if fn is None:
         return ctx.missing(R, "remove_anonymous_from_expression")
